@@ -287,6 +287,16 @@ def normTerms : List (Str × Str) → List (Str × Str)
 def plainLines (s : Str) : Bool :=
   s.all (fun c => !isBreak c || c = '\n') && s.getLast? != some '\n'
 
+/-! ## `Lexer.tokeniter`: normalisation of the source before the rules run (upstream code, shared by both engines) -/
+
+/-- `source.endswith('\r\n') or source.endswith('\r') or source.endswith('\n')` -/
+def endsNl (s : Str) : Bool := s.getLast? == some '\n' || s.getLast? == some '\r'
+
+/-- `lines = source.splitlines(); if keep_trailing_newline and source and source ends in a newline: lines.append('');
+source = '\n'.join(lines)` -/
+def normalizeSource (keep : Bool) (s : Str) : Str :=
+  joinNl (splitlines s ++ (if keep && endsNl s then [[]] else []))
+
 /-! ## Rendering a marker construct (prediction used by the tie) -/
 
 /-- What a construct opened with the marker contributes: the data in front (without the blanks), then the
